@@ -25,6 +25,13 @@ def check(run):
     for L in range(1, (6 if thorough else 4) + 1):
         go(f'parse T2 root, all bytes, L={L}', PARSE + ({'device': 'T2', 'L': L, 'prefixes': False},), 900)
         go(f'parse T1 from A/X, all bytes, L={L}', PARSE + ({'device': 'T1', 'start': ['A', 'X'], 'L': L, 'prefixes': False},), 900)
+    # long parameter lists and long headers: concrete prefix + symbolic tail (all 256 values per byte)
+    for k in (1, 2, 5, 9, 10, 11, 12, 15):
+        pre = 'C ' + ','.join(['1'] * k) + ','
+        go(f'parse T1 root, "C 1,1,...," ({k} parameters, then a separator) + 2 symbolic bytes', PARSE + ({'device': 'T1', 'L': 2, 'prefix': pre, 'prefixes': False},), 600)
+    for pre in ('A:X:', 'A:X:C;', 'S "abc', 'K #14ab', 'K #2', 'U? #H', 'U? 1E', 'U? 1.', 'C ' + '1' * 30, 'C ' + 'A' * 30):
+        go(f'parse T1 root, {pre!r} + 3 symbolic bytes', PARSE + ({'device': 'T1', 'L': 3, 'prefix': pre, 'prefixes': False},), 600)
+    bounds['structured_prefixes'] = 'parameter lists of 1..15 entries, deep headers, open strings / blocks / radix and exponent prefixes, 30-character numerals and character data, each followed by 2..3 symbolic bytes'
     # (b) run with response buffers of every small capacity, free-form input over the class alphabet
     for cap in range(0, 5):
         for L in range(1, (5 if thorough else 4) + 1):
